@@ -80,6 +80,18 @@ def run(pid, tier, seed):
     for t in ["", "1/0", "1/", "/", "/5", "--1", "1e", "1e-", "1e5.3", ".", "-.", "+", "e5", "1.2.3", "1e5e3", "1/2/3", "0/0", "-0", "1//2",
               "1/-0.0e5", "1 /2", "5e+", ".e1", "1e+5-3", "-1/-2", "00012", "1/0.000"]:
         cases.append(("corner", t, None))
+    # the overflow guard of the scanner (since fix d278e6f): an exponent of more than five digits is "not a number".  This is
+    # outside the Lean model (whose exponent is an unbounded Nat); the expectation is stated here and only the code is asked.
+    guard_cases = ["1e100000", "3/2e-123456", "1.5E+9999999999", "-2e999999/3", "1/1e100000"]
+    gtr = proto.run_harness(exe, ["scan " + hx(t) for t in guard_cases], timeout=120)
+    if gtr.crashed:
+        rep.violation("the scanner crashes on an over-long exponent: " + gtr.crashed[-300:], {"texts": guard_cases, "stderr": gtr.stderr[-1500:]}, signature={"symptom": "crash", "kind": "exp-guard"})
+    else:
+        for t, (op, blk) in zip(guard_cases, gtr):
+            ev.stat("scan:exp-guard")
+            if proto.get(blk, "n") != ["0"] or proto.get(blk, "val") != ["none"]:
+                rep.violation("an exponent of more than five digits is accepted as a number: %r -> n=%s" % (t, proto.get(blk, "n")), {"text": t, "c": [proto.get(blk, "n"), proto.get(blk, "val")]},
+                              signature={"symptom": "exp-guard"})
     batches = core.chunks(cases, build.NCPU)
     trs = core.parallel_harness(exe, [["scan " + hx(t) for _, t, _ in b] for b in batches], timeout=900)
     model = solvelib.Model(pinf, ninf)
